@@ -641,6 +641,24 @@ def _h_clauses(G, tag):
     return fails
 
 
+def _h_subset_clauses(G, nodes, tag):
+    """staged use: hydrogens made explicit on a chosen subset of atoms only (as the reactor does for the atoms a rule
+    touches).  The same clauses: neither direction changes the heavy skeleton or the total hydrogen count."""
+    from synkit.Graph.Hyrogen._misc import h_to_explicit, h_to_implicit
+    fails = []
+    if not _molecule_like(G):
+        return fails
+    e = h_to_explicit(G, nodes)
+    i = h_to_implicit(e)
+    h0 = _total_h(G)
+    for nm, X in (("h_to_explicit(nodes=%r)" % (nodes,), e), ("h_to_implicit after it", i)):
+        if _total_h(X) != h0:
+            fails.append(_fail("H-total", "%s: total hydrogen count %d -> %d after %s" % (tag, h0, _total_h(X), nm)))
+        if _heavy_skeleton(X) != _heavy_skeleton(G):
+            fails.append(_fail("H-molecule", "%s: heavy atoms / bonds changed by %s" % (tag, nm)))
+    return fails
+
+
 def _canon_nostereo(mol, addhs=False):
     from rdkit import Chem
     m = Chem.Mol(mol)
@@ -853,6 +871,8 @@ def oracle(case):
     if k == "hx":
         if case["nodes"] is None and not case["its"] and all("typesGH" not in a for _, a in case["g"]["nodes"]):
             return _h_clauses(to_nx(case["g"]), case.get("name", "graph"))[:3]
+        if case["nodes"] is not None and not case["its"] and all("typesGH" not in a for _, a in case["g"]["nodes"]):
+            return _h_subset_clauses(to_nx(case["g"]), case["nodes"], case.get("name", "graph"))[:3]
         return []
     if k == "mol":
         return _oracle_mol(case)
@@ -1142,6 +1162,17 @@ def gen_cases(tier, rng):
                 cases.append(dict(kind="hx", g=g2, nodes=None, its=False, name="hx-nokey/%d/%d" % (n, j)))
                 nk += 1
                 if quick and nk >= 120:
+                    break
+    # ... and staged expansion: hydrogens made explicit on one atom only, which is not the atom with the largest id
+    ns = 0
+    for n in (2, 3):
+        for j, g in enumerate(_h_alphabet_graphs(n, tier)):
+            ids = sorted(i for i, _ in g["nodes"])
+            first = dict((i, a) for i, a in g["nodes"])[ids[0]]
+            if first.get("element") != "H" and (first.get("hcount") or 0) > 0:
+                cases.append(dict(kind="hx", g=g, nodes=[ids[0]], its=False, name="hx-subset/%d/%d" % (n, j)))
+                ns += 1
+                if quick and ns >= 150:
                     break
     for k in range(250 if quick else 1500):
         n = rng.randint(1, 9)
